@@ -35,11 +35,20 @@ type Req struct {
 	Scopes []string `json:"scopes,omitempty"`
 }
 
+// ExtraAlt is an alternative of the DOCUMENT that is no alternative of the model: it names at least
+// one scheme of a kind ogen does not implement (openIdConnect), and with ignore_not_implemented the
+// generator skips the whole alternative. It is rendered at position At of the requirement list.
+type ExtraAlt struct {
+	At  int   `json:"at"`
+	Alt []Req `json:"alt"`
+}
+
 // Op is one operation.
 type Op struct {
-	ID       string   `json:"id"`
-	Path     string   `json:"path"`
-	Security *[][]Req `json:"security"` // nil: inherit the global requirement
+	ID       string     `json:"id"`
+	Path     string     `json:"path"`
+	Security *[][]Req   `json:"security"` // nil: inherit the global requirement
+	Extra    []ExtraAlt `json:"extra,omitempty"`
 }
 
 // Meta describes one generated spec.
@@ -47,6 +56,36 @@ type Meta struct {
 	Schemes []Scheme `json:"schemes"`
 	Global  *[][]Req `json:"global"`
 	Ops     []Op     `json:"ops"`
+	// Unsupported: names of openIdConnect schemes (used only inside ExtraAlt alternatives).
+	Unsupported []string   `json:"unsupported,omitempty"`
+	GlobalExtra []ExtraAlt `json:"global_extra,omitempty"`
+}
+
+// HasExtras: the document needs ignore_not_implemented to be generated.
+func (m Meta) HasExtras() bool {
+	if len(m.GlobalExtra) > 0 {
+		return true
+	}
+	for _, op := range m.Ops {
+		if len(op.Extra) > 0 {
+			return true
+		}
+	}
+	return false
+}
+
+// withExtras renders the requirement list of the document: the model's alternatives with the
+// skipped ones put in at their positions.
+func withExtras(rs [][]Req, extra []ExtraAlt) [][]Req {
+	out := append([][]Req{}, rs...)
+	for _, e := range extra {
+		at := e.At
+		if at > len(out) {
+			at = len(out)
+		}
+		out = append(out[:at], append([][]Req{e.Alt}, out[at:]...)...)
+	}
+	return out
 }
 
 // Effective returns the requirement list that applies to op (nil = no security).
@@ -108,6 +147,9 @@ func (m Meta) Spec() []byte {
 			}}
 		}
 	}
+	for _, n := range m.Unsupported {
+		schemes[n] = map[string]any{"type": "openIdConnect", "openIdConnectUrl": "https://example.com/.well-known/openid-configuration"}
+	}
 	paths := map[string]any{}
 	for _, op := range m.Ops {
 		o := map[string]any{
@@ -115,7 +157,7 @@ func (m Meta) Spec() []byte {
 			"responses":   map[string]any{"200": map[string]any{"description": "ok"}},
 		}
 		if op.Security != nil {
-			o["security"] = reqsJSON(*op.Security)
+			o["security"] = reqsJSON(withExtras(*op.Security, op.Extra))
 		}
 		paths[op.Path] = map[string]any{"get": o}
 	}
@@ -126,7 +168,7 @@ func (m Meta) Spec() []byte {
 		"components": map[string]any{"securitySchemes": schemes},
 	}
 	if m.Global != nil {
-		doc["security"] = reqsJSON(*m.Global)
+		doc["security"] = reqsJSON(withExtras(*m.Global, m.GlobalExtra))
 	}
 	b, _ := json.Marshal(doc)
 	return b
